@@ -1,7 +1,7 @@
 """C14 - leniency options widen the header grammar exactly as documented, never past NUL / lone CR."""
 from .jobs import *
 REQUIRED_WITNESSES = ['C', 'C+hdr', 'P', 'E:HeaderName', 'E:HeaderValue']
-BOUNDS = {'quick': 'responses: all 16 header-option combinations at once, every header block to 6 bytes (capacity 1) / 5 (capacity 0); requests: 4 combinations to 7 bytes; each option alone to 7-8 bytes; folded / ignored-line templates',
+BOUNDS = {'quick': 'responses: all 16 header-option combinations at once, every header block to 6 bytes (capacity 1) / 5 (capacity 0); requests: 4 combinations to 7 bytes; each option alone to 7-8 bytes; folded / ignored-line templates; long runs (7..33 bytes) of ignored-line bytes, folded-line bytes and blanks, blanks after the name and before the first name, with a 2-byte symbolic window',
           'thorough': 'all combinations to 8 (responses) / 9 (requests) bytes; single options to 10; templates to 8 symbolic bytes'}
 OUTSIDE = 'longer header blocks'
 EXPLANATION = 'product with the reference parser parameterised by the same (symbolic) options: status, n, error kind, header count and every header\'s four numbers must agree for every option assignment on every path'
@@ -34,5 +34,6 @@ def jobs(tier, seed):
         J += deepen(P, G, 'tmpl-' + nm, lambda n, kind=kind, pre=pre, suf=suf, fl=fl: sc(kind, n, prefix=pre, suffix=suf, api='cfg', fl=fl, cap=2),
                     range(1, T(tier, 4, 6) + 1), T(tier, 80, 600), f'{kind} {pre!r} + ' + '{n} symbolic bytes + ' + f'{suf!r}', 3)
     J += sliding_families(P, G, tier, step=T(tier, 3, 1))
+    J += longrun_families(P, G, tier, ('ignored-run', 'ignored-run-req', 'fold-run', 'fold-ws-run', 'name-sp-run', 'first-sp-run'))
     J += neighbourhood_families(P, G, tier)
     return J
